@@ -606,7 +606,7 @@ class Processor(object):
         label_list = header[2:-1].split(";")
         f.close()
 
-        data = np.loadtxt(file_name, delimiter="\t")
+        data = np.loadtxt(file_name, delimiter="\t", ndmin=2)
         if not inctime:
             coeffs = data.T
         else:
